@@ -15,7 +15,7 @@ import (
 // RemoveWhitespace / ParseFunction / SplitOnComma first (contradiction rule: 12 of the 14 readers did).
 func c08RawArguments(c *core.Check) {
 	p := c.Prog
-	r := c.Rule("R13", "white space and comments inside a function are irrelevant: in css/validation and html/tree no list read from the Arguments field of a token is indexed at a constant position, sliced with constant bounds or has its length compared with a constant before white space and comments are removed from it", 8)
+	r := c.Rule("R13", "white space and comments inside a function are irrelevant: in css/validation and html/tree no list read from the Arguments field of a token is indexed at a constant position, sliced with constant bounds or has its length compared with a constant before white space and comments are removed from it", 11)
 	n := 0
 	for _, pkg := range []string{"css/validation", "html/tree"} {
 		for _, fn := range p.FuncsOfPkg(pkg) {
@@ -96,7 +96,7 @@ func c08RawArguments(c *core.Check) {
 // and overrides an earlier valid one (`tab-size: 4; tab-size: foo` gave 0).
 func c08UnrecognisedLength(c *core.Check) {
 	p := c.Prog
-	r := c.Rule("R14", "an unrecognised token is not a length of zero: in css/validation every result of getLength that is turned into a property value with ToValue() is first tested with IsNone(), and converted only where it is not none", 10)
+	r := c.Rule("R14", "an unrecognised token is not a length of zero: in css/validation every result of getLength that is turned into a property value with ToValue() is first tested with IsNone(), and converted only where it is not none", 23)
 	gl := p.Fn("css/validation", "getLength")
 	if gl == nil {
 		r.Anchor("css/validation.getLength")
